@@ -120,8 +120,21 @@ impl HandshakeService {
         }
     }
 
+    /// Discard a completed but not yet reported handshake of `peer`.
+    ///
+    /// A finished handshake waits in `ready` until it is popped. If the substream it belongs to is
+    /// removed or replaced in the meantime, the stale entry must not be matched with a substream
+    /// registered later under the same key: that substream would be reported as negotiated without
+    /// its handshake ever having been read.
+    fn discard_ready(&mut self, peer: &PeerId, direction: Direction) {
+        self.ready.retain(|(ready_peer, ready_direction, _)| {
+            !(ready_peer == peer && *ready_direction == direction)
+        });
+    }
+
     /// Remove outbound substream from [`HandshakeService`].
     pub fn remove_outbound(&mut self, peer: &PeerId) -> Option<Substream> {
+        self.discard_ready(peer, Direction::Outbound);
         self.substreams
             .remove(&(*peer, Direction::Outbound))
             .map(|(substream, _, _)| substream)
@@ -129,6 +142,7 @@ impl HandshakeService {
 
     /// Remove inbound substream from [`HandshakeService`].
     pub fn remove_inbound(&mut self, peer: &PeerId) -> Option<Substream> {
+        self.discard_ready(peer, Direction::Inbound);
         self.substreams
             .remove(&(*peer, Direction::Inbound))
             .map(|(substream, _, _)| substream)
@@ -138,6 +152,7 @@ impl HandshakeService {
     pub fn negotiate_outbound(&mut self, peer: PeerId, substream: Substream) {
         tracing::trace!(target: LOG_TARGET, ?peer, "negotiate outbound");
 
+        self.discard_ready(&peer, Direction::Outbound);
         self.substreams.insert(
             (peer, Direction::Outbound),
             (
@@ -152,6 +167,7 @@ impl HandshakeService {
     pub fn read_handshake(&mut self, peer: PeerId, substream: Substream) {
         tracing::trace!(target: LOG_TARGET, ?peer, "read handshake");
 
+        self.discard_ready(&peer, Direction::Inbound);
         self.substreams.insert(
             (peer, Direction::Inbound),
             (
@@ -166,6 +182,7 @@ impl HandshakeService {
     pub fn send_handshake(&mut self, peer: PeerId, substream: Substream) {
         tracing::trace!(target: LOG_TARGET, ?peer, "send handshake");
 
+        self.discard_ready(&peer, Direction::Inbound);
         self.substreams.insert(
             (peer, Direction::Inbound),
             (
